@@ -39,7 +39,12 @@ def handle (l : Line) : IO Unit := do
       let n := (id.toNat?.getD 0) % scheds.length
       let pick := scheds.getD n Sched.default
       let ts := toTablesSched c.cfg pick b
-      for line in obsTables id c ts do IO.println line
+      match obsTables id c ts with
+      | [] => pure ()
+      | h :: rest =>
+        IO.println h
+        for line in rawLines id l c do IO.println line
+        for line in rest do IO.println line
       let ref := toTables c.cfg b
       let same := scheds.all fun s => decide (toTablesSched c.cfg s b = ref)
       IO.println s!"obs {id} sched same={if same then 1 else 0}"
